@@ -18,6 +18,7 @@ HARNESSES = [
     dict(name="touch_asan", src="props/touch.cpp", variant="asan"),
     dict(name="oob", src="props/oob.cpp", variant="plain"),
     dict(name="sampling", src="props/sampling.cpp", variant="plain"),
+    dict(name="opaque", src="props/opaque.cpp", variant="plain"),
     dict(name="oob_asan", src="props/oob.cpp", variant="asan"),
     dict(name="fz_oob", src="props/oob.cpp", variant="asan", kind="fuzz", cflags=["-DVF_FUZZ", '-DVF_FUZZ_PROP="oob"']),
     dict(name="traps_asan", src="props/traps.cpp", variant="asan"),
@@ -291,4 +292,30 @@ CHECKS["C08"] = dict(
     assumptions=["domain: the request rectangle expanded by one pixel maps, corner by corner, to within +-30000 source pixels with w of one sign (the library drops requests beyond that, which is C04's 'dropped or clamped')",
                  "kernels have absolute coefficient sums well below 128.0 (32-bit accumulators of 8-bit pixel x 16.16 coefficient)",
                  "wide (10 bpc, sRGB, float) sources are not covered here (C09/C10 cover them differentially)"],
+)
+
+CHECKS["C09"] = dict(
+    level="exploration",
+    rule=("rapidcheck metamorphic pairs: one base scene (all 63 operators with 65% mass on CLEAR..SATURATE; source with any "
+          "transform kind, NEAREST/BILINEAR/CONVOLUTION/SEPARABLE filters with non-negative kernels, all repeats, request partly "
+          "outside a REPEAT_NONE source; widths with mass at SIMD boundaries) rendered under two presentations of the same fully "
+          "opaque content for one role: source in {a8r8g8b8 alpha 255, x8r8g8b8, x8b8g8r8, r5g6b5 (565-representable content), "
+          "solid, 1x1 repeating a8r8g8b8 / x8r8g8b8 (uniform content)}, mask in {none, a8=ff, x8r8g8b8, solid white, 1x1 a8=ff "
+          "repeating, a8r8g8b8=ffffffff component alpha}, destination in {a8r8g8b8 alpha 255, x8r8g8b8, x8r8g8b8 + repeat (the "
+          "only way a destination is flagged opaque), r5g6b5, r5g6b5 + repeat}; the other roles use a random fixed presentation. "
+          "Oracle: destinations identical on RGB (and alpha when both have it), bit for bit. Non-trivial = the pair differs in "
+          "opacity flagging and the operator's row of the reduction table has differing columns, or a mask is elided."),
+    jobs=[
+        dict(harness="opaque", prop="opaque", cases=T(30000, 500000), procs=T(6, 10)),
+        dict(harness="opaque", prop="opaque", cases=T(15000, 250000), procs=T(1, 2), env={"PIXMAN_DISABLE": "fast sse2 ssse3 mmx"}, tag="opaque_general"),
+        dict(harness="opaque", prop="opaque", cases=T(15000, 250000), procs=T(1, 2), env={"PIXMAN_DISABLE": "sse2 ssse3"}, tag="opaque_mmx"),
+        # "treated as opaque only if every sample has alpha 1": solids with 16-bit alpha 0xff00..0xfffe vs the same colour as a
+        # 1x1 repeating rgba_float image, as source or mask, on 10 bpc / sRGB / float destinations
+        dict(harness="opaque", prop="nearopaque", cases=T(30000, 400000), procs=T(2, 4)),
+    ],
+    floor=T(150000, 3000000), nt_floor=T(40000, 600000),
+    assumptions=["r5g6b5 vs 8888 source presentations are compared in the 8-bit pipeline only (in floating point r5g6b5 is widened as v/31, the 8888 copy holds replicated 8-bit values)",
+                 "solid vs uniform-image presentations are not compared when the uniform image goes through an interpolating/convolving fetch in floating point",
+                 "HSL operators with a component-alpha mask are defined as DST and are not a presentation of 'no mask'",
+                 "565 destinations are compared with 565 destinations only"],
 )
